@@ -411,9 +411,16 @@ class DownloadNode:
 
     def process_blocks(self, segnum, blocks):
         start = now()
+        fetcher = self._active_segment # the SegmentFetcher that called us
         d = self._decode_blocks(segnum, blocks)
         d.addCallback(self._check_ciphertext_hash, segnum)
         def _deliver(result):
+            if self._active_segment is not fetcher:
+                # every request for this segment was cancelled while we were
+                # decoding: _cancel_request() has retired our fetcher (and
+                # may have started another one), so nobody is waiting for
+                # this result and _active_segment is not ours to clear.
+                return
             log.msg(format="delivering segment(%(segnum)d)",
                     segnum=segnum,
                     level=log.OPERATIONAL, parent=self._lp,
@@ -484,7 +491,6 @@ class DownloadNode:
     def _check_ciphertext_hash(self, segment_and_decodetime, segnum):
         (segment, decodetime) = segment_and_decodetime
         start = now()
-        assert self._active_segment.segnum == segnum
         assert self.segment_size is not None
         offset = segnum * self.segment_size
 
